@@ -63,4 +63,81 @@ theorem runRules_all_accept (cs : Chains) (f : Nat) (rs : List Rule) (p : Pkt)
       · subst h; rw [hmr] at hm'; cases hm'
       · exact ⟨r', h, hmr⟩
 
+
+theorem runRules_cons_notrack (cs : Chains) (f : Nat) (r : Rule) (rs : List Rule) (p : Pkt)
+    (ha : r.action = .notrack) : runRules cs f (r :: rs) p = runRules cs f rs p := by
+  by_cases h : r.matches p = true
+  · simp [runRules, runRulesWith, h, ha]
+  · have h' : r.matches p = false := by simpa using h
+    exact runRules_cons_nomatch cs f r rs p h'
+
+theorem runRules_cons_ret (cs : Chains) (f : Nat) (r : Rule) (rs : List Rule) (p : Pkt)
+    (h : r.matches p = true) (ha : r.action = .ret) : runRules cs f (r :: rs) p = .fall p := by
+  simp [runRules, runRulesWith, h, ha]
+
+/-! ### mark bits -/
+
+theorem testBit_clearBits (x m i : Nat) : (clearBits x m).testBit i = (x.testBit i && !m.testBit i) := by
+  unfold clearBits
+  rw [Nat.testBit_xor, Nat.testBit_and]
+  cases x.testBit i <;> cases m.testBit i <;> rfl
+
+theorem and_two_pow_cleared (x m b : Nat) (hm : m.testBit b = true) : clearBits x m &&& 2 ^ b = 0 := by
+  apply Nat.eq_of_testBit_eq
+  intro i
+  rw [Nat.testBit_and, testBit_clearBits, Nat.testBit_two_pow, Nat.zero_testBit]
+  by_cases h : b = i
+  · subst h; simp [hm]
+  · simp [h]
+
+theorem markSet_cleared (p : Pkt) (m b : Nat) (hm : m.testBit b = true) :
+    (Crit.markSet (2 ^ b)).holds { p with mark := clearBits p.mark m } = false := by
+  simp only [Crit.holds, and_two_pow_cleared _ _ _ hm]
+  have : (0 : Nat) ≠ 2 ^ b := Nat.ne_of_lt (Nat.two_pow_pos b)
+  simp [this]
+
+theorem markClear_cleared (p : Pkt) (m b : Nat) (hm : m.testBit b = true) :
+    (Crit.markClear (2 ^ b)).holds { p with mark := clearBits p.mark m } = true := by
+  simp [Crit.holds, and_two_pow_cleared _ _ _ hm]
+
+/-- a terminal verdict other than DROP, or falling through (to the rest of the hook / the user's rules). -/
+def NotDropped (r : Res) : Prop := r = .accept ∨ ∃ q, r = .fall q
+
+/-- a run of rules whose action is the configured allow action (ACCEPT or RETURN): either one of
+them fires (not a drop) or evaluation continues with the rest. -/
+theorem allow_rules (cs : Chains) (f : Nat) (a : Action) (ha : a = .accept ∨ a = .ret) (rs rest : List Rule) (p : Pkt)
+    (hall : ∀ r ∈ rs, r.action = a) :
+    NotDropped (runRules cs f (rs ++ rest) p) ∨ runRules cs f (rs ++ rest) p = runRules cs f rest p := by
+  induction rs with
+  | nil => exact Or.inr rfl
+  | cons r rs ih =>
+    have hr := hall r List.mem_cons_self
+    by_cases hm : r.matches p = true
+    · left
+      rcases ha with ha | ha
+      · rw [List.cons_append, runRules_cons_accept cs f r _ p hm (hr.trans ha)]; exact Or.inl rfl
+      · rw [List.cons_append, runRules_cons_ret cs f r _ p hm (hr.trans ha)]; exact Or.inr ⟨p, rfl⟩
+    · have hm' : r.matches p = false := by simpa using hm
+      rw [List.cons_append, runRules_cons_nomatch cs f r _ p hm']
+      exact ih (fun x hx => hall x (List.mem_cons_of_mem _ hx))
+
+
+theorem runRules_cons_setMark (cs : Chains) (f : Nat) (r : Rule) (rs : List Rule) (p : Pkt) (m : Nat)
+    (h : r.matches p = true) (ha : r.action = .setMark m) :
+    runRules cs f (r :: rs) p = runRules cs f rs { p with mark := p.mark ||| m } := by
+  simp [runRules, runRulesWith, h, ha]
+
+theorem single_allow_notdropped (cs : Chains) (f : Nat) (r : Rule) (q : Pkt)
+    (ha : r.action = .accept ∨ r.action = .ret) : NotDropped (runRules cs f [r] q) := by
+  rcases allow_rules cs f r.action ha [r] [] q (by intro x hx; simp at hx; subst hx; rfl) with h | h
+  · simpa using h
+  · right; exact ⟨q, by simpa [runRules_nil] using h⟩
+
+/-- a matching head rule whose action is ACCEPT or RETURN. -/
+theorem head_allow_notdropped (cs : Chains) (f : Nat) (r : Rule) (rs : List Rule) (p : Pkt)
+    (hm : r.matches p = true) (ha : r.action = .accept ∨ r.action = .ret) : NotDropped (runRules cs f (r :: rs) p) := by
+  rcases ha with ha | ha
+  · rw [runRules_cons_accept cs f r rs p hm ha]; exact Or.inl rfl
+  · rw [runRules_cons_ret cs f r rs p hm ha]; exact Or.inr ⟨p, rfl⟩
+
 end CalicoVerif.C40
